@@ -655,13 +655,14 @@ pub fn check(ctx: &mut Ctx) {
 	ctx.run_sub(&StopMem);
 	ctx.run_sub(&UnreadAnswer);
 	ctx.run_sub(&DropLastHandle);
+	ctx.run_sub(&OversizedDuringStop);
 	ctx.run_sub(&StopTcp);
 	let inc = INCONCLUSIVE.load(std::sync::atomic::Ordering::SeqCst);
 	ctx.extra.insert("tcp_inconclusive_cases".into(), json!(inc));
 }
 
 pub fn replay(file: &serde_json::Value) -> Option<i32> {
-	replay_with(&StopMem, file, "C10").or_else(|| replay_with(&UnreadAnswer, file, "C10")).or_else(|| replay_with(&DropLastHandle, file, "C10")).or_else(|| replay_with(&StopTcp, file, "C10"))
+	replay_with(&StopMem, file, "C10").or_else(|| replay_with(&UnreadAnswer, file, "C10")).or_else(|| replay_with(&DropLastHandle, file, "C10")).or_else(|| replay_with(&OversizedDuringStop, file, "C10")).or_else(|| replay_with(&StopTcp, file, "C10"))
 }
 
 #[allow(dead_code)]
@@ -743,6 +744,84 @@ impl SubCheck for DropLastHandle {
 				obs.nontrivial();
 			}
 			obs.class(if case.lowlevel { "low-level-ws-connect" } else { "tower-service" });
+		});
+	}
+}
+
+// ---------------------------------------------------------------------------------------------
+// a peer that stays connected sends an oversized message while the server is shutting down
+// ---------------------------------------------------------------------------------------------
+
+#[derive(Clone, Debug, Serialize, Deserialize)]
+pub struct OversizedDuringStopCase {
+	pub calls: u8,
+	pub over_by: u16,
+	pub binary: bool,
+	pub lowlevel: bool,
+	/// the oversized message comes before (false) or after (true) stop()
+	pub after_stop: bool,
+}
+
+pub struct OversizedDuringStop;
+
+impl SubCheck for OversizedDuringStop {
+	type Case = OversizedDuringStopCase;
+	fn name(&self) -> &'static str {
+		"oversized-message-during-shutdown"
+	}
+	fn cases(&self, tier: Tier) -> u32 {
+		tier.pick(3_000, 60_000)
+	}
+	fn strategy(&self, _tier: Tier) -> BoxedStrategy<OversizedDuringStopCase> {
+		(1u8..4, 1u16..400, any::<bool>(), proptest::bool::weighted(0.25), proptest::bool::weighted(0.8))
+			.prop_map(|(calls, over_by, binary, lowlevel, after_stop)| OversizedDuringStopCase { calls, over_by, binary, lowlevel, after_stop })
+			.boxed()
+	}
+	fn run(&self, case: &OversizedDuringStopCase, obs: &mut Obs) {
+		let rt = rt();
+		rt.block_on(async {
+			crate::panics::clear_local();
+			let limit = 200usize;
+			let fix = Fixture::new(Cfg { max_request: limit as u32, ..Cfg::default() });
+			let ws = if case.lowlevel { fix.ws_lowlevel().await } else { fix.ws().await };
+			let Ok(mut ws) = ws else {
+				obs.fail("c10/ws-handshake", "failed".to_string());
+				return;
+			};
+			let desc = || format!("case={case:?}");
+			for k in 0..case.calls {
+				let _ = ws.send_text(&format!(r#"{{"jsonrpc":"2.0","id":"o{k}","method":"gated_async","params":["o{k}"]}}"#)).await;
+			}
+			settle().await;
+			let big = "x".repeat(limit + case.over_by as usize);
+			let Fixture { ctx, handle, stop, methods, builder, .. } = fix;
+			let stopped_task = tokio::spawn(handle.clone().stopped());
+			if !case.after_stop {
+				let _ = if case.binary { ws.send_binary(big.as_bytes()).await } else { ws.send_text(&big).await };
+				settle().await;
+			}
+			let _ = handle.stop();
+			drop((stop, methods, builder));
+			settle().await;
+			if case.after_stop {
+				// the peer is still there and sends something the server will not accept
+				let _ = if case.binary { ws.send_binary(big.as_bytes()).await } else { ws.send_text(&big).await };
+				settle().await;
+			}
+			obs.check(!stopped_task.is_finished(), "c10/stopped-before-handlers-finished", || format!("stopped() resolved while {} calls are executing; {}", case.calls, desc()));
+			ctx.gates.release_all();
+			settle().await;
+			let texts = ws.drain_texts();
+			for k in 0..case.calls {
+				let ok = texts.iter().filter_map(|t| serde_json::from_str::<Value>(t).ok()).any(|v| v["id"] == json!(format!("o{k}")) && v.get("result").is_some());
+				obs.check(ok, "c10/started-call-not-answered", || format!("call o{k} was executing at stop(); its peer stayed connected and sent an oversized message {}; received {texts:?}; {}", if case.after_stop { "during the shutdown" } else { "before stop()" }, desc()));
+			}
+			obs.check(stopped_task.is_finished(), "c10/stopped-never-resolves", || desc());
+			let panics = crate::panics::take_local();
+			obs.check(panics.is_empty(), "c10/background-panic", || format!("{panics:?}; {}", desc()));
+			if case.after_stop {
+				obs.nontrivial();
+			}
 		});
 	}
 }
